@@ -48,6 +48,27 @@ def site_shape(o):
     return "%s:%s" % (o["kind"], T.render_shape(o["node"])[:140])
 
 
+def _first_char_of_delimiter(b, n):
+    """n is `it.next().unwrap()` where `it` is a local bound to `<delimiter parameter>.chars()` on which next() is called once."""
+    if n.get("k") != "mcall" or n["name"] not in ("unwrap", "expect"):
+        return False
+    r = T.peel_ref(n["recv"])
+    if not (r.get("k") == "mcall" and r["name"] == "next"):
+        return False
+    lid = T.local_of(T.peel_ref(r["recv"]))
+    if lid is None:
+        return False
+    params = {p["pat"]["id"] for p in b["params"] if p["pat"]["p"] == "bind" and p["pat"]["name"].startswith("delimiter") and (p.get("ty") or "").lstrip("&") == "str"}
+    lets = [s_ for s_ in T.nodes(b["tree"], "let") if s_["pat"]["p"] == "bind" and s_["pat"]["id"] == lid]
+    if len(lets) != 1 or lets[0].get("init") is None:
+        return False
+    init = T.peel(lets[0]["init"])
+    if not (init.get("k") == "mcall" and init["name"] == "chars" and T.local_of(T.peel_ref(init["recv"])) in params):
+        return False
+    nexts = [x for x in T.nodes(b["tree"], "mcall") if x["name"] in ("next", "nth", "skip", "next_back", "last") and T.local_of(T.peel_ref(x["recv"])) == lid]
+    return len(nexts) == 1
+
+
 def aud_key(site):
     """Site signatures are compared modulo binding mode: unary `*`, `&`, `&mut` are dropped (`removed_pos[*pair_idx]` and
     `removed_pos[pair_idx]` are the same operation on the same value)."""
@@ -179,6 +200,11 @@ def run(ctx, res):
                 else:
                     cls = None
                     detail = "arithmetic on a value that does not originate from lengths, positions, counters or literals"
+            if cls is None and o["kind"] == "unwrap" and _first_char_of_delimiter(b, o["node"]):
+                # `<delimiter>.chars().next().unwrap()` on a fresh iterator: the precondition of the property (delimiters are
+                # non-empty strings), wherever the read is written (in a helper or inline)
+                cls = "AUD"
+                detail = "precondition of the property: delimiters are non-empty strings (first character of a fresh <delimiter>.chars())"
             if cls is None:
                 nsite = aud_key(site)
                 a = aud_sites.get((fshort(b), nsite))
@@ -463,6 +489,11 @@ def _verify_count(b, s):
         r = T.peel_ref(tail["recv"])
         if r.get("k") == "mcall" and r["name"] in ("filter", "take_while", "skip_while") and T.render(r["recv"]) in ("%s.chars()" % pname, "%s.bytes()" % pname, "%s.char_indices()" % pname):
             return True, "%s over %s.chars(), counted: at most one per character <= byte length" % (r["name"], pname)
+        # s.matches(<non-empty pattern>).count(): non-overlapping matches of a pattern of >= 1 byte <= byte length
+        if r.get("k") == "mcall" and r["name"] in ("matches", "match_indices", "rmatches") and T.render(r["recv"]) == pname and len(r["args"]) == 1:
+            lv = T.lit_value(r["args"][0])
+            if isinstance(lv, str) and len(lv) >= 1:
+                return True, "%s(%r) over %s, counted: non-overlapping matches of a non-empty pattern <= byte length" % (r["name"], lv, pname)
     return False, "counting idiom not recognised"
 
 
